@@ -33,6 +33,10 @@ import (
 // scenarios, the same oracle and the same (mode-independent) Coq model judge both modes.
 var debugMode bool
 
+// variant: label of the binary's build-tag variant (`deadlock` / `fakemutex` re-alias syncutils.Mutex/RWMutex; the four
+// objects of this property use sync.Mutex/sync.RWMutex directly, so the variants must behave identically)
+var variant string
+
 // stdoutCapture: in debug mode everything the library prints (the deadlock reports) is collected here
 var stdoutCapture *capture
 
@@ -588,12 +592,8 @@ func emit(cf *vx.CasesFile, st *vx.Stats, sc *scenario) {
 	}
 	cf.Add(sc.coq(seen))
 	parts := []string{sc.Kind}
-	if debugMode {
-		parts[0] = "debug-mode:" + sc.Kind
-		st.Count("mode:debug.SetEnabled(true)")
-	} else {
-		st.Count("mode:default")
-	}
+	parts[0] = caseKey(sc.Kind)
+	st.Count("mode:" + modeName())
 	blocked := false
 	for _, s := range sc.Scripts {
 		parts = append(parts, vx.ListOf(s, op.coq))
@@ -969,6 +969,7 @@ func main() {
 	out := fs.String("out", "cases.v", "")
 	stats := fs.String("stats", "stats.json", "")
 	dbg := fs.Bool("debug", false, "run everything with debug.SetEnabled(true)")
+	fs.StringVar(&variant, "variant", "", "label: build tags of this binary besides verif")
 	sameAs := fs.String("same-as", "", "cases file of the same generator run in the other mode: when this run's cases are textually identical, no cases file is written (the Coq evaluation of the reference covers them)")
 	_ = fs.Parse(os.Args[2:])
 	r := vx.NewRng(*seed)
@@ -983,7 +984,7 @@ func main() {
 	}
 	switch os.Args[1] {
 	case "scripted":
-		st := vx.NewStats("scripted arrival orders of 2-4 goroutines x 1-4 operations on one StarvingMutex / a DAGMutex with 1-3 entities / a Counter / a Stack (exhaustive orders for the small script sets, seeded random otherwise, incl. misuse scripts), every family in the default mode and again with debug.SetEnabled(true); one evaluation = one case = one arrival order in one mode with the observation after every arrival; distinct = distinct (mode, scripts, order); non-trivial = at least one operation was parked at some quiescent point")
+		st := vx.NewStats("scripted arrival orders of 2-4 goroutines x 1-4 operations on one StarvingMutex / a DAGMutex with 1-3 entities / a Counter / a Stack (exhaustive orders for the small script sets, seeded random otherwise, incl. misuse scripts), every family in the default mode, again with debug.SetEnabled(true), and again in binaries built with the tags deadlock / fakemutex; one evaluation = one case = one arrival order in one mode of one binary with the observation after every arrival; distinct = distinct (build variant, mode, scripts, order); non-trivial = at least one operation was parked at some quiescent point")
 		cf := &vx.CasesFile{
 			Header: "From Coq Require Import ZArith List.\nFrom Verif.C17_Sync Require Import Model Corr.\nImport ListNotations.\n",
 			Type:   "case",
@@ -1022,7 +1023,7 @@ func main() {
 			vx.Die("%v", err)
 		}
 	case "free":
-		st := vx.NewStats("free-running contention (holder-set monitors, stall watchdog), misuse under recover, PopOrWait window through the yield hook, in the default mode and again with debug.SetEnabled(true) (+ directed deadlock-detector cases: short waits are not reported, a long wait is reported once and still granted); one evaluation = one run in one mode")
+		st := vx.NewStats("free-running contention (holder-set monitors, stall watchdog), misuse under recover, PopOrWait window through the yield hook, in the default mode, again with debug.SetEnabled(true) (+ directed deadlock-detector cases: short waits are not reported, a long wait is reported once and still granted; the mode switched while a call is blocked) and in binaries built with the tags deadlock / fakemutex; one evaluation = one run in one mode of one binary")
 		if debugMode && !raceBuild {
 			detectorCases(st, stdoutCapture)
 		}
